@@ -180,6 +180,52 @@ def shape_select(nworkers, kind, n, kinds, optmask, other_direct=True, cumul_in_
     return sh
 
 
+def shape_several_shared_workers(modes, ntasks, optmask):
+    """Two or three tasks share several directly required workers; task B holds worker k in mode modes[k]
+    (static / delayed / dynamic), the other tasks hold every worker for their whole span. Every worker serves
+    one task at a time, whatever the other workers the same tasks share, and B's busy interval on each worker
+    is the one its mode implies."""
+    name = f"several_shared_workers/{'+'.join(modes)}/{ntasks}tasks/opt{''.join(str(int(b)) for b in optmask)}"
+
+    def build(P):
+        pb, hv = new_problem(P, False)
+        tis = _tasks(P, tuple(["fixed", "fixed", "var"][:ntasks]), optmask)
+        ws = [ps.Worker(name=f"W{k + 1}") for k in range(len(modes))]
+        shifts = {}
+        for k, (w, mode) in enumerate(zip(ws, modes)):
+            for i, t in enumerate(tis):
+                if i == 1 and mode == "delayed":
+                    t.obj.add_required_resource(w, delay_in=P.term(f"din{k}", ph=1, lo=0), early_out=P.term(f"eout{k}", ph=0, lo=0))
+                    shifts[k] = (P.v(f"din{k}"), P.v(f"eout{k}"))
+                elif i == 1 and mode == "dynamic":
+                    t.obj.add_required_resource(w, dynamic=True)
+                else:
+                    t.obj.add_required_resource(w)
+        return Ctx(problem=pb, tis=tis, ws=ws, shifts=shifts)
+
+    def obligations(ctx):
+        obs = []
+        b = ctx.tis[1]
+        for k, (w, mode) in enumerate(zip(ctx.ws, modes)):
+            for i, t in enumerate(ctx.tis):
+                bs, be = w._busy_intervals[t.obj]
+                if i == 1 and mode == "delayed":
+                    din, eout = ctx.shifts[k]
+                    cl = And(bs == t.s + din, be == t.e - eout)
+                elif i == 1 and mode == "dynamic":
+                    cl = And(bs >= t.s, be <= t.e, bs <= be)
+                else:
+                    cl = And(bs == t.s, be == t.e)
+                obs.append(Ob(f"{PROP}/{name}/busy_{w.name}_{t.name}", "sound", clause=cl, guard=t.sched))
+            obs += capacity_obs(name, w, w.name)
+        return obs
+
+    sh = Shape(name, build, obligations)
+    # a delayed assignment leaves a non-negative busy span
+    sh.assumptions = lambda P: [P.v(f"din{k}") + P.v(f"eout{k}") <= P.v("B_dur") for k, m in enumerate(modes) if m == "delayed"]
+    return sh
+
+
 def shape_twice(pattern):
     """One task requires the same worker through two requirements (directly and in a selection list, in two
     selection lists, twice the same cumulative worker). Either the model is rejected at creation (then there is
@@ -399,6 +445,14 @@ def shapes(tier):
     out.append(shape_select(3, "min", 1, ("fixed", "fixed"), (False, False), cumul_in_list=True))
     for nt, m in ((2, (False, False)), (3, (False, False, False)), (3, (True, False, False))) + (((4, (False,) * 4),) if thorough else ()):
         out.append(shape_cumulative_in_lists(nt, m))
+    mode_lists = [("delayed", "static"), ("static", "delayed"), ("dynamic", "static"), ("static", "dynamic"), ("static", "static"), ("delayed", "dynamic", "static")]
+    if thorough:
+        mode_lists += [m for m in itertools.product(("static", "delayed", "dynamic"), repeat=3) if m not in mode_lists]
+    for modes in mode_lists:
+        out.append(shape_several_shared_workers(modes, 2, (False, False)))
+        if thorough or modes in (("delayed", "static"), ("dynamic", "static")):
+            out.append(shape_several_shared_workers(modes, 3, (False, False, False)))
+            out.append(shape_several_shared_workers(modes, 2, (True, True)))
     for pattern in ("direct_then_select", "two_selections_sharing_a_worker", "cumulative_twice"):
         out.append(shape_twice(pattern))
     # cumulative workers
